@@ -265,6 +265,10 @@ func (rs *runState) drawBatches(spec *diffSpec) ([]drawnBatch, error) {
 		sts := []importStyle{styles[0]}
 		if spec.fixedStyles {
 			sts = styles
+			if rs.tier != "thorough" && len(styles) > 2 {
+				// quick: the default style plus one that rotates with the seed; thorough: all
+				sts = []importStyle{styles[0], styles[1+int(rs.seed%uint64(len(styles)-1))]}
+			}
 		}
 		for si, st := range sts {
 			for i := 0; i < len(spec.fixed); i += spec.batchSize {
@@ -556,6 +560,11 @@ func (rs *runState) runDiff(spec *diffSpec) {
 						}
 						if res.fail.Timeout {
 							rs.infraProblem(fmt.Sprintf("runner timed out in case %q", res.crashed))
+							return
+						}
+						if d := res.fail.Diag; !strings.Contains(d, "fatal error:") && !strings.Contains(d, "panic:") && !strings.Contains(d, "race detector report") {
+							// killed from outside / out of memory: not evidence about the subject
+							rs.infraProblem(fmt.Sprintf("runner died without a Go fatal error in case %q: %s", res.crashed, firstLine(d)))
 							return
 						}
 						p := j.db.progs[0]
